@@ -11,8 +11,10 @@ import (
 
 	"github.com/spaolacci/murmur3"
 
+	"github.com/bfenetworks/bfe/bfe_balance/backend"
 	"github.com/bfenetworks/bfe/bfe_balance/bal_gslb"
 	"github.com/bfenetworks/bfe/bfe_balance/bal_slb"
+	"github.com/bfenetworks/bfe/bfe_basic"
 	"github.com/bfenetworks/bfe/bfe_config/bfe_cluster_conf/cluster_table_conf"
 	"github.com/bfenetworks/bfe/bfe_config/bfe_cluster_conf/gslb_conf"
 
@@ -138,10 +140,35 @@ type c02Instance struct {
 	rr  *bal_slb.BalanceRR
 	bal *bal_gslb.BalanceGslb
 	c   *c02Case
+	// connections held on the backends change while keys are asked (c02m.go);
+	// nil = the backends never hold a connection
+	conn *c02Conn
+	req  *bfe_basic.Request // reused between asks (c02m.go)
+}
+
+// preloadConns puts connections on the backends of the instance.
+func (in *c02Instance) preloadConns() {
+	if in.conn == nil {
+		return
+	}
+	var bs []*backend.BfeBackend
+	if in.rr != nil {
+		for _, b := range in.rr.VerifSnapshot().Backends {
+			bs = append(bs, b.Backend)
+		}
+	} else {
+		snap := in.bal.VerifSnapshot()
+		for _, vs := range snap.Subs {
+			for _, b := range vs.RR.Backends {
+				bs = append(bs, b.Backend)
+			}
+		}
+	}
+	in.conn.preload(bs)
 }
 
 func c02Build(c *c02Case, o c02Ordering, tag string) (*c02Instance, error) {
-	inst := &c02Instance{c: c}
+	inst := &c02Instance{c: c, conn: newC02Conn(vkit.Hash64("conn", tag, fmt.Sprint(c.Seed)))}
 	applyDown := func(sub *c02Sub, snap bal_slb.VerifRR) {
 		down := map[string]bool{}
 		for i, b := range sub.Backends {
@@ -165,6 +192,7 @@ func c02Build(c *c02Case, o c02Ordering, tag string) (*c02Instance, error) {
 			inst.rr.Init(conf)
 		}
 		applyDown(s, inst.rr.VerifSnapshot())
+		inst.preloadConns()
 		return inst, nil
 	}
 	var gc gslb_conf.GslbClusterConf
@@ -194,13 +222,18 @@ func c02Build(c *c02Case, o c02Ordering, tag string) (*c02Instance, error) {
 	} else {
 		inst.bal.BackendReload(tc)
 	}
-	inst.bal.SetGslbBasic(c.Basic.conf())
+	gb, err := c02BasicConf(c.Basic)
+	if err != nil {
+		return nil, err
+	}
+	inst.bal.SetGslbBasic(gb)
 	snap := inst.bal.VerifSnapshot()
 	for i := range c.Subs {
 		if vs := subByName(&snap, c.Subs[i].Name); vs != nil {
 			applyDown(&c.Subs[i], vs.RR)
 		}
 	}
+	inst.preloadConns()
 	return inst, nil
 }
 
@@ -214,10 +247,16 @@ func (in *c02Instance) ask(key []byte, q reqSpec) c02Target {
 		if err != nil {
 			t.Err = err.Error()
 		}
+		if in.conn != nil {
+			in.conn.forwarded(b)
+		}
 		return t
 	}
-	req := q.build(in.c.Basic)
+	req := in.request(q)
 	b, err := in.bal.Balance(req)
+	if in.conn != nil {
+		in.conn.forwarded(b)
+	}
 	t := c02Target{Sub: req.Backend.SubclusterName}
 	if b != nil {
 		t.Addr = b.AddrInfo
@@ -381,6 +420,14 @@ func c02Check(r *vkit.Run, c *c02Case) {
 			for j, x := range classes[res] {
 				nkeys++
 				t0 := insts[0].ask(x.key, x.q)
+				// (0) the same instance, asked again (its backends' connection counts have changed)
+				if t0b := insts[0].ask(x.key, x.q); t0b != t0 {
+					r.Violation("repetition-differs:"+c02Shape(c)+":"+c02CanonMode(c.Basic.Mode),
+						fmt.Sprintf("key %x maps to %s and, asked again on the same balancer (BalanceMode %q, only connection counts changed), to %s", x.key, t0, c.Basic.Mode, t0b),
+						map[string]interface{}{"case": c, "key": x.key, "req": x.q, "target_first": t0, "target_again": t0b})
+					failed = true
+					return
+				}
 				// (1) permutation invariance
 				for k := 1; k < K; k++ {
 					tk := insts[k].ask(x.key, x.q)
@@ -515,7 +562,7 @@ func c02Gen(r *vkit.Run, i int) *c02Case {
 	// duplicate addresses only where both entries are instantiated (Init);
 	// Update keeps one entry per address and the docs say nothing about which
 	dup := c.Build == "init" && g.Chance(1, 4)
-	c.Basic = gbasic{RetryMax: 2, CrossRetry: 0, Mode: "WRR", Strategy: g.Intn(4), Sticky: c.Level == "gslb-sticky" || g.Chance(1, 3)}
+	c.Basic = gbasic{RetryMax: 2, CrossRetry: 0, Mode: c02DrawMode(g), Strategy: g.Intn(4), Sticky: c.Level == "gslb-sticky" || g.Chance(1, 3)}
 	if g.Bool() {
 		c.Basic.Header = "X-Client-Id"
 	} else {
@@ -572,7 +619,9 @@ func c02Gen(r *vkit.Run, i int) *c02Case {
 func c02(r *vkit.Run) {
 	r.SetRule("configurations at three levels: rr = BalanceRR.Balance(WrrSticky) on 1-6 backends (weights 0..6, some down, string-vs-numeric address order, duplicate addresses only with Init where both entries exist); gslb-sticky = BalanceGslb with one positive-weight sub-cluster and SessionSticky; gslb-sub = 2-5 sub-clusters (weights incl. 0, negative, blackhole with positive weight). Each configuration is built 4 times (listed order + 3 random orderings of sub-clusters and backends) through Init, through BackendReload/Update (map order) or through JSON files read by GslbConfLoad/ClusterTableLoad. Keys: random bytes (rr) or requests for the four HashStrategy values with header / cookie / IPv4 / IPv6 / URI sources; requests without a deterministic key are not generated. The harness computes murmur3_64(key) mod M (M = 100*sum of eligible backend weights, or sum of positive sub-cluster weights) and asks 2 keys per residue class on all 4 instances. Non-trivial = >=2 eligible targets and all M classes covered; distinct = configuration. " +
 		"RELOAD HISTORIES (1000, thorough 20000; rr = BalanceRR Init/Update; gslb-sticky and gslb-sub with SessionSticky = BalanceGslb BackendInit/BackendReload, all four strategies): Init with 1-5 backends per sub-cluster, then 1-4 reloads, per sub-cluster of kind weight / add / remove / replace (k removed, k added, same length, newcomer at the old position or at the end of the text) / mixed / noop-same / noop-reorder, a third of them with the list shuffled, with 0-3 sticky picks after each step (so the list was sorted for sticky selection before the next reload); distinct addresses, weights 0..4, some final backends down. Asserted: every key (2 per residue class of murmur3_64 mod M, padded to >=400 keys) gets the same target (sub-cluster, addr:port, error) on the balancer with the history as on a balancer freshly initialised with the final lists (sticky:history-dependent:<kind of last reload>), and on the balancer with the history each residue class has one target and each target owns M*w/W classes. History non-trivial = >=2 eligible targets and all classes covered; distinct = hash of (final configuration, steps). " +
-		"GSLB-CONF RELOAD HISTORIES (800, thorough 16000; c02g.go): the sub-cluster set and weights are reached through Init + 1-5 BalanceGslb.Reload+BackendReload / ReloadAll steps (add / remove zero-weight sub-clusters whose names sort before / after the weighted one, weight changes, the weight moving to another sub-cluster, adding / removing weighted sub-clusters, several weighted -> one), names incl. upper/lower case and GSLB_BLACKHOLE (weight 0, rarely positive), 0-3 picks after each step; two thirds end with exactly ONE positive-weight sub-cluster next to 0-3 zero-weight ones (the single-sub-cluster fast path), sticky (targets = backends) or not (targets = sub-clusters), all four strategies; backend lists per sub-cluster name are constant. Asserted as above: same target (sub-cluster, and backend when sticky) as on a balancer freshly initialised with the final configuration (gslb-reload:history-dependent:<shape>:<kind of last reload>), target eligible, one target per residue class, exact shares. Non-trivial = final configuration with >=2 sub-clusters, all classes covered, >=1 reload that changes the sub-cluster configuration; distinct = hash of (final configuration, steps)")
+		"GSLB-CONF RELOAD HISTORIES (800, thorough 16000; c02g.go): the sub-cluster set and weights are reached through Init + 1-5 BalanceGslb.Reload+BackendReload / ReloadAll steps (add / remove zero-weight sub-clusters whose names sort before / after the weighted one, weight changes, the weight moving to another sub-cluster, adding / removing weighted sub-clusters, several weighted -> one), names incl. upper/lower case and GSLB_BLACKHOLE (weight 0, rarely positive), 0-3 picks after each step; two thirds end with exactly ONE positive-weight sub-cluster next to 0-3 zero-weight ones (the single-sub-cluster fast path), sticky (targets = backends) or not (targets = sub-clusters), all four strategies; backend lists per sub-cluster name are constant. Asserted as above: same target (sub-cluster, and backend when sticky) as on a balancer freshly initialised with the final configuration (gslb-reload:history-dependent:<shape>:<kind of last reload>), target eligible, one target per residue class, exact shares. Non-trivial = final configuration with >=2 sub-clusters, all classes covered, >=1 reload that changes the sub-cluster configuration; distinct = hash of (final configuration, steps). " +
+		"BALANCE MODE AND CONNECTIONS (c02m.go): every gslb configuration above carries a BalanceMode drawn from the spellings GslbBasicConfCheck accepts (WRR, wrr, absent = default | WLC, wlc, Wlc; both families equally often) and is installed the way a configuration file is: JSON text -> GslbBasicConf -> GslbBasicConfCheck -> SetGslbBasic. On every instance of every comparison the backends hold connections that change while keys are asked: 0..6 connections per backend from the start, IncConnNum on the backend a selection returned (3 of 4), DecConnNum of earlier ones (1 of 3; now and then all); each instance (orderings, history, fresh) has its own connection history. The oracles are unchanged (same target on all orderings / history = fresh, one target per residue class, exact shares; in addition every key is asked twice on one instance and must get the same target: repetition-differs): neither the balance mode nor connection counts are arguments of the target function. " +
+		"MODE MATRIX (288 cases, thorough 4320): every cell BalanceMode spelling {absent, WRR, WLC, wrr, wlc, Wlc} x SessionSticky {absent, false, true} x HashStrategy 0..3 equally often; one weighted sub-cluster (plus zero-weight ones / blackhole 0) or 2-3 weighted sub-clusters, 2-5 backends each (weights 0..5, some down, >=2 eligible); 8-24 requests with distinct deterministic keys, each repeated in 3-8 rounds in random order; between requests the connection counts change (a burst of 1-9 connections on a random backend; 2-12 connections on the backend the key went to before, so that it is the busiest; everything released; some forwarded requests finish) and a forwarded request holds a connection on its backend. Asserted: with SessionSticky every repetition gets the same (sub-cluster, backend), which is eligible (mode-matrix:target-changes-between-repetitions, mode-matrix:ineligible-target), and the same as on a twin balancer with the same sub-clusters/backends/weights, the OTHER balance mode and no connections (mode-matrix:target-depends-on-balance-mode); without SessionSticky the same for the sub-cluster only; the installed BalanceMode/SessionSticky read with VerifSnapshot are the documented meaning of the text. Counted: sticky requests whose target was NOT among the eligible backends with least connections/weight by the harness' own bookkeeping (a least-connection decision would have differed; must be > 0 for WLC and WRR). Non-trivial = >=2 eligible targets, >=2 distinct targets seen, connection counts changed; distinct = (spelling, sticky, basic, sub-clusters)")
 	r.Assume("modulus M: backend weights are scaled x100 by BackendRR.Init, sub-cluster weights are not scaled")
 	r.Assume("duplicate addresses are compared by addr:port with summed weights; duplicates through Update (one entry per address survives, order dependent, docs silent) are excluded")
 	if r.Replay != "" {
@@ -580,12 +629,15 @@ func c02(r *vkit.Run) {
 			Case c02Case      `json:"case"`
 			Hist *c02HistCase `json:"hist"`
 			G    *c02GHist    `json:"ghist"`
+			M    *c02MCase    `json:"matrix"`
 		}
 		if err := r.LoadReplay(&w); err != nil {
 			r.Inconclusive(err.Error())
 			return
 		}
-		if w.G != nil {
+		if w.M != nil {
+			c02MCheck(r, w.M)
+		} else if w.G != nil {
 			c02GHistCheck(r, w.G)
 		} else if w.Hist != nil {
 			c02HistCheck(r, w.Hist)
@@ -606,6 +658,7 @@ func c02(r *vkit.Run) {
 	}
 	c02Histories(r)
 	c02GHistories(r)
+	c02Matrix(r)
 }
 
 // ---------------------------------------------------------------------------
@@ -647,7 +700,11 @@ func c02TableOf(m map[string][]bspec) cluster_table_conf.ClusterBackend {
 // c02BuildHist drives a new instance through the history.
 func c02BuildHist(h *c02HistCase, g *vkit.Rand) (*c02Instance, error) {
 	c := &h.Case
-	inst := &c02Instance{c: c}
+	inst := &c02Instance{c: c, conn: newC02Conn(vkit.Hash64("conn-hist", fmt.Sprint(c.Seed)))}
+	gb, err := c02BasicConf(c.Basic)
+	if err != nil {
+		return nil, err
+	}
 	picks := func(n int) {
 		for ; n > 0; n-- {
 			q, key := c02GenKey(c, g)
@@ -660,6 +717,7 @@ func c02BuildHist(h *c02HistCase, g *vkit.Rand) (*c02Instance, error) {
 		for i, st := range h.Steps {
 			if i == 0 {
 				inst.rr.Init(confOf(st.Backends[name]))
+				inst.preloadConns()
 			} else {
 				inst.rr.Update(confOf(st.Backends[name]))
 			}
@@ -677,7 +735,8 @@ func c02BuildHist(h *c02HistCase, g *vkit.Rand) (*c02Instance, error) {
 		for i, st := range h.Steps {
 			if i == 0 {
 				inst.bal.BackendInit(c02TableOf(st.Backends))
-				inst.bal.SetGslbBasic(c.Basic.conf())
+				inst.bal.SetGslbBasic(gb)
+				inst.preloadConns()
 			} else {
 				inst.bal.BackendReload(c02TableOf(st.Backends))
 			}
@@ -798,6 +857,13 @@ func c02HistCheck(r *vkit.Run, h *c02HistCase) {
 			for j, x := range classes[res] {
 				tf := fresh.ask(x.key, x.q)
 				th := hist.ask(x.key, x.q)
+				if th2 := hist.ask(x.key, x.q); th2 != th {
+					r.Violation("sticky:history:repetition-differs:"+c.Level+":"+c02CanonMode(c.Basic.Mode),
+						fmt.Sprintf("key %x maps to %s and, asked again on the same balancer (BalanceMode %q, only connection counts changed), to %s", x.key, th, c.Basic.Mode, th2),
+						map[string]interface{}{"hist": h, "key": x.key, "req": x.q, "target_first": th, "target_again": th2})
+					failed = true
+					return
+				}
 				if th != tf {
 					k := mainKind(tf.Sub)
 					r.Violation("sticky:history-dependent:"+k+":"+c.Level,
@@ -918,7 +984,7 @@ func c02GenHist(r *vkit.Run, i int) *c02HistCase {
 	c := &h.Case
 	c.Seed = g.U64()
 	c.Build = "history"
-	c.Basic = gbasic{RetryMax: 2, CrossRetry: 0, Mode: "WRR", Strategy: g.Intn(4), Sticky: true}
+	c.Basic = gbasic{RetryMax: 2, CrossRetry: 0, Mode: c02DrawMode(g), Strategy: g.Intn(4), Sticky: true}
 	if g.Bool() {
 		c.Basic.Header = "X-Client-Id"
 	} else {
